@@ -99,7 +99,7 @@ func (p *Prog) PrivateHelper(h *ssa.Function) bool {
 	}
 	p.private[h] = false // cut recursion
 	ok := func() bool {
-		if !p.InTarget(h) || len(h.Blocks) == 0 || h.Synthetic != "" {
+		if !p.InTarget(h) || len(h.Blocks) == 0 || (h.Synthetic != "" && !IsInstance(h)) {
 			return false
 		}
 		if h.Parent() != nil {
